@@ -110,7 +110,7 @@ func (r *runner) run() int {
 	r.env = append(os.Environ(), goEnv...)
 	r.dir = spec.Dir
 	if r.dir == "" {
-		r.dir = "/repo"
+		r.dir = repoRoot()
 	}
 	var err error
 	r.scratch, err = os.MkdirTemp("", "vcheck-"+spec.ID+"-")
@@ -168,7 +168,7 @@ func (r *runner) runVariants(ev *evidence) int {
 		r2 := &runner{spec: &sub, tier: r.tier, only: r.only, workers: r.workers, keep: r.keep, verbose: r.verbose, seed: r.seed, start: r.start, env: r.env, replayRec: r.replayRec}
 		r2.dir = sub.Dir
 		if r2.dir == "" {
-			r2.dir = "/repo"
+			r2.dir = repoRoot()
 		}
 		var err error
 		r2.scratch, err = os.MkdirTemp(r.scratch, "v-")
